@@ -63,24 +63,44 @@ def build_harness():
     return C.compile_harness("c24_seginit", srcs, extra=["-I" + gdir, "-DASSIGN_SHA=\"%s\"" % sha])
 
 
-def par_run(cmd, lines, nproc):
-    """Run `cmd` over `lines` split into contiguous chunks; returns concatenated stdout lines."""
+def out_count(line):
+    """number of output lines one op line produces (harness: init -> init+oracle, sched -> ops+run+oracle; model: 1)"""
+    return 1
+
+
+def harness_out_count(line):
+    return 3 if line.startswith("sched") else 2
+
+
+def par_run(cmd, lines, nproc, count=out_count, block=32):
+    """Run `cmd` over `lines` on `nproc` processes (blocks of ops dealt round-robin so that the large grids are
+    spread evenly); returns the output lines in the order of `lines`."""
     if not lines:
         return []
     nproc = max(1, min(nproc, len(lines) // 200 + 1))
-    size = (len(lines) + nproc - 1) // nproc
-    chunks = [lines[i:i + size] for i in range(0, len(lines), size)]
+    chunks = [[] for _ in range(nproc)]
+    for b in range(0, len(lines), block):
+        chunks[(b // block) % nproc].extend(lines[b:b + block])
 
     def one(ch):
+        if not ch:
+            return []
         p = subprocess.run(cmd, input="".join(ch).encode(), stdout=subprocess.PIPE, stderr=subprocess.PIPE, timeout=7200)
         if p.returncode != 0:
             raise RuntimeError("%s failed rc=%d: %s" % (cmd[0], p.returncode, p.stderr.decode()[-1500:]))
-        return p.stdout.decode().split("\n")
+        return [l for l in p.stdout.decode().split("\n") if l]
     with ThreadPoolExecutor(max_workers=nproc) as ex:
         outs = list(ex.map(one, chunks))
+    for ch, o in zip(chunks, outs):
+        if sum(count(l) for l in ch) != len(o):
+            raise RuntimeError("%s: unexpected number of output lines (%d for %d ops)" % (cmd[0], len(o), len(ch)))
+    pos = [0] * nproc
     res = []
-    for o in outs:
-        res.extend(l for l in o if l)
+    for b in range(0, len(lines), block):
+        k = (b // block) % nproc
+        n = sum(count(l) for l in lines[b:b + block])
+        res.extend(outs[k][pos[k]:pos[k] + n])
+        pos[k] += n
     return res
 
 
@@ -111,8 +131,14 @@ def gen_ops(chk):
                     grids.append((W, H, c, r, mc, mr))
         nsched_every = 1
     else:
+        # every (C,R) up to the header maxima (+1 past the clamp) for a seeded third of the (W,H) plane;
+        # VERIF_SEED rotates which third, so seeds 1,2,3 together cover all W<=65, H<=34 exhaustively
+        # (VERIF_C24_FULL=1: the whole plane in one run, about 15 min)
+        phase = chk.seed % 3
         for W in range(1, 66):
             for H in range(1, 35):
+                if (W + H) % 3 != phase and W > 2 and not os.environ.get("VERIF_C24_FULL"):
+                    continue
                 for c in range(1, min(W, mc_hdr) + 2):
                     for r in range(1, min(H, mr_hdr) + 2):
                         grids.append((W, H, c, r, c, r))
@@ -138,9 +164,11 @@ def gen_ops(chk):
 def evaluate(chk, ops, model_ok=True):
     """Run harness (+ model) on ops; returns dict of results. Oracle verdicts come from the harness's
     `oracle` lines, which are computed from the REAL code's outputs only."""
+    import gc
+    gc.disable()     # millions of short strings: the cyclic collector only costs time here
     exe = build_harness()
     nproc = max(2, min(8, C.NCPU // 2))
-    hout = par_run([exe], ops, nproc)
+    hout = par_run([exe], ops, nproc, harness_out_count)
     # split harness output
     canon, oracle_init, oracle_sched, model_in = [], [], [], []
     it = iter(hout)
